@@ -210,7 +210,7 @@ fn gen_settle_bad(rng: &mut Rng, n: usize) -> SettleBad {
 }
 
 impl Scenario for C17 {
-    fn generate(rng: &mut Rng, tier: Tier, avoid_known: bool) -> Self {
+    fn generate(rng: &mut Rng, tier: Tier, _avoid_known: bool) -> Self {
         let n = 1 + rng.weighted(&[2, 4, 4, 3, 2, 2]);
         let budgets: Vec<u16> = (0..n).map(|_| rng.urange(1, 24) as u16).collect();
         let scope_of: Vec<u8> = (0..n).map(|_| u8::from(rng.chance(1, 4))).collect();
